@@ -959,6 +959,11 @@ func (s *subscriptionState) done() {
 func (s *subscriptionState) complete() {
 	s.writeMu.Lock()
 	defer s.writeMu.Unlock()
+	// Re-check under writeMu: the caller tested removed without the lock, the subscription may have been
+	// removed and its completed channel closed since.
+	if s.removed.Load() {
+		return
+	}
 	s.writer.Complete()
 }
 
@@ -967,6 +972,10 @@ func (s *subscriptionState) complete() {
 func (s *subscriptionState) error(data []byte) {
 	s.writeMu.Lock()
 	defer s.writeMu.Unlock()
+	// Re-check under writeMu, see complete().
+	if s.removed.Load() {
+		return
+	}
 	s.writer.Error(data)
 }
 
